@@ -111,7 +111,7 @@ func checkC07(e *RunEnv) *CheckResult {
 	spec := &Spec{
 		Seeds: []Seed{{"S0", seedS0()}, {"dir-unstaged", append(seedS0(), Write("test/x", v1("test/x")), Write("t", v1("t")), Run("add", "test", "t"), Run("commit", "-m", "c1"), Run("rm", "test/x"))}, {"S1-one-file", append(seedS0(), Write("t", v1("t")), Run("add", "t"), Run("commit", "-m", "c1"))}, {"S1-six-names", append(seedS0(), Write("test/x", v1("test/x")), Write("test/y", v1("test/y")), Write("test.c", v1("test.c")),
 			Write("test-data", v1("test-data")), Write("test0", v1("test0")), Write("t", v1("t")), Write("test/s/z", v1("test/s/z")), Write("tests/w", v1("tests/w")), Run("add", "test", "test.c", "test-data", "test0", "t", "tests"), Run("commit", "-m", "c1"))}},
-		Depth: e.depth(3, 5),
+		Depth: e.depth(3, 6),
 		Steps: func(n *Node) []Step {
 			a := n.Abs()
 			t := unionTags(nameSetTags(indexPaths(a)), stateTags(a))
